@@ -143,14 +143,14 @@ fn layout_shape_ok(src: &Src, ty: &str) -> Result<(), String> {
     if !t.contains(&want_match) {
         return Err("the per-character increment is not `quote => count += 1; 1 | c => escaped_char_len(c)`".into());
     }
-    if !t.contains("let(quote,num_escaped_quotes)=choose_quote(single_count,double_count,preferred_quote);") || !t.contains("letSome(out_len)=length_add(out_len,num_escaped_quotes)else") {
+    if !t.contains("let(quote,num_escaped_quotes)=choose_quote(single_count,double_count,preferred_quote);") || !t.contains("matchlength_add(out_len,num_escaped_quotes){Some(out_len)=>EscapeLayout{quote,len:Some(out_len-") {
         return Err("the layout does not add num_escaped_quotes from choose_quote(single_count, double_count, preferred_quote)".into());
     }
     let reserved = if ty == "UnicodeEscape" { "Self::REPR_RESERVED_LEN" } else { "reserved_len" };
     if !t.contains(&format!("letmutout_len={};", reserved)) || !t.contains(&format!("len:Some(out_len-{}),", reserved)) {
         return Err("the reserved length is not subtracted again from the announced length".into());
     }
-    if !t.contains("letSome(new_len)=length_add(out_len,incr)else") || !t.contains("out_len=new_len;") {
+    if !t.contains("matchlength_add(out_len,incr){Some(new_len)=>{out_len=new_len;},_=>{") || !t.contains("out_len=new_len;") {
         return Err("the running length is not accumulated with length_add(out_len, incr)".into());
     }
     Ok(())
